@@ -598,3 +598,4 @@ def replay(case):
         return None
     sw = [(i, c) for i, c in enumerate(x.choices) if c]
     return f'applications {list(pair)} serving one request each on two threads, switches at {sw[:10]}: {v[1]}'
+MANIFEST['text'] += " Sub-requests made on a copy of the caller's environ, one environ handed to two applications in turn, and 40 rounds of application turnover (create, drop, setup(), create, serve) are operations of the menu."
